@@ -370,7 +370,20 @@ func (f *Frame) callFunction(fn *ssa.Function, args []Val, bind []Val, c *ssa.Ca
 		}
 	}
 	ct := eng.contracts[fn.String()]
-	if ct != nil && (len(ct.Ensures) > 0 || len(ct.Requires) > 0 || ct.Modular || fn == vc.top) && vc.pure == 0 {
+	// `transparent`: the contract is proved for the function on its own, but a caller that can
+	// inline the body does so (it then sees the exact result, not only the postconditions)
+	seeThrough := false
+	if ct != nil && ct.Transparent && fn != vc.top && len(ct.Requires) == 0 {
+		onSt := false
+		for _, s := range vc.stack {
+			if s == fn {
+				onSt = true
+			}
+		}
+		mb, md := vc.inlineLimits()
+		seeThrough = !onSt && vc.depth < md && len(fn.Blocks) <= mb && len(fn.FreeVars) == len(bind)
+	}
+	if ct != nil && !seeThrough && (len(ct.Ensures) > 0 || len(ct.Requires) > 0 || ct.Modular || fn == vc.top) && vc.pure == 0 {
 		var names []string
 		for _, p := range fn.Params {
 			names = append(names, p.Name())
